@@ -22,8 +22,8 @@ EXTENDS Judge
 CONSTANTS MaxDepth,      \* operations per behaviour
           AmountInts,    \* initial amounts n/2 for n in this set of integers
           Scalars        \* scalar factors n/2
-VARIABLES s1, s2, last, depth
-vars == <<s1, s2, last, depth>>
+VARIABLES s1, s2, last, prev, depth      \* prev: the event before last (history, for the multi-step identities)
+vars == <<s1, s2, last, prev, depth>>
 
 ---------------------------------------------------------------------------
 \* exact dyadic helpers
@@ -87,9 +87,9 @@ FitAlgo(T, m) ==
 InitVals == {[T |-> T, u |-> u, a |-> Half(n)] : T \in ModelTypes, u \in UNION {Units(t) : t \in ModelTypes}, n \in AmountInts}
 Vals0 == {v \in InitVals : v.u \in Units(v.T)}
 
-Init == s1 \in Vals0 /\ s2 \in Vals0 /\ last = [ev |-> "Header"] /\ depth = 0
+Init == s1 \in Vals0 /\ s2 \in Vals0 /\ last = [ev |-> "Header"] /\ prev = [ev |-> "Header"] /\ depth = 0
 
-Step(ns1, ev) == s1' = ns1 /\ s2' = s2 /\ last' = ev /\ depth' = depth + 1
+Step(ns1, ev) == s1' = ns1 /\ s2' = s2 /\ last' = ev /\ prev' = last /\ depth' = depth + 1
 
 DoNew == \E via \in {"new", "axu", "uxa"} :
     Step(s1, [ev |-> "New", T |-> s1.T, via |-> via, a |-> s1.a, u |-> s1.u, out |-> OkQ(s1.a, s1.u)])
@@ -187,7 +187,7 @@ DoTable == OKind(s1.T) = "noref" /\ \E tbl \in ModelTables, to \in Units(s1.T) :
                ELSE [ok |-> [none |-> TRUE]]
     IN  Step(s1, [ev |-> "Table", T |-> s1.T, predefined |-> FALSE, rows |-> rows, v |-> Q(s1.a, s1.u), to |-> to, out |-> out])
 
-Swap == s1' = s2 /\ s2' = s1 /\ UNCHANGED <<last, depth>>
+Swap == s1' = s2 /\ s2' = s1 /\ UNCHANGED <<last, prev, depth>>
 
 Next == depth < MaxDepth /\ (DoNew \/ DoConvert \/ DoCmp \/ DoArith \/ DoScalar \/ DoDerived \/ DoFit \/ DoLookup \/ DoRate \/ DoTable)
 
@@ -199,7 +199,22 @@ PropertiesHold == last.ev = "Header" \/ AllOk(last)
 \* diagnostics: which clause fails
 WhichFail == last.ev = "Header" \/ Failing(last) = {} \/ PrintT(<<"FAILING", Failing(last)>>)
 
-\* derived identities (the "consequently" clauses), exact:
+\* multi-step identities over the history (prev, last), exact regime:
+MagQ(T, q) == IF HasRef(T) THEN XMul(q.a, Sc(T, q.u)) ELSE q.a
+\* converting there and back returns the original amount
+ConvertRoundTrip ==
+    (prev.ev = "Convert" /\ last.ev = "Convert" /\ last.T = prev.T /\ last.v = prev.out.ok /\ last.to = prev.v.u)
+        => XEq(last.out.ok.a, prev.v.a)
+\* (a + b) - b = a  and  (a - b) + b = a
+AddSubInverse ==
+    (prev.ev = "Arith" /\ last.ev = "Arith" /\ Ok(prev.out) /\ Ok(last.out) /\ last.T = prev.T
+       /\ {prev.op, last.op} = {"add", "sub"} /\ last.x = prev.out.ok /\ last.y = prev.y)
+        => XEq(last.out.ok.a, prev.x.a) /\ last.out.ok.u = prev.x.u
+\* (x * y) / y and (x / y) * y give back the magnitude of x  (C04 "consequently")
+MulDivInverse ==
+    (prev.ev = "Derived" /\ last.ev = "Derived" /\ prev.op # last.op /\ last.L = prev.Res /\ last.R = prev.R
+       /\ last.Res = prev.L /\ last.x = prev.out.ok /\ last.y = prev.y)
+        => XEq(MagQ(last.Res, last.out.ok), MagQ(prev.L, prev.x))
 \* magnitude of a value
 Mag(v) == IF HasRef(v.T) THEN XMul(v.a, Sc(v.T, v.u)) ELSE v.a
 \* emission of the explored events for replay on the implementation (spec -> impl)
